@@ -219,9 +219,16 @@ impl Universe {
     pub fn display_vs(&self, vs: usize) -> String {
         let v = &self.vsets[vs];
         let p = &self.packages[v.pkg];
-        let items: Vec<String> = v
+        // Sets with very many members (huge-package stages) are abbreviated: resolvo formats
+        // version sets in its debug events, and a display that is linear in the package size
+        // turns one solve into minutes of string building. The text stays a pure function of
+        // the table and unique through the id.
+        const SHOWN: usize = 12;
+        let extra = v.matches.len().saturating_sub(SHOWN);
+        let mut items: Vec<String> = v
             .matches
             .iter()
+            .take(SHOWN)
             .map(|&i| {
                 p.cands
                     .get(i)
@@ -229,6 +236,9 @@ impl Universe {
                     .unwrap_or_else(|| format!("?{i}"))
             })
             .collect();
+        if extra > 0 {
+            items.push(format!("..+{extra}"));
+        }
         format!("{{{}}}#{}", items.join(","), v.id)
     }
 
